@@ -233,6 +233,10 @@ func (p *c17) directed(c fw.Case, cs *caseState) {
 		p.directedReferenceNames(chunk, cs)
 	case c.Directed == "negative-indexes":
 		p.directedNegativeIndexes(cs)
+	case c.Directed == "placeholder-literals":
+		p.directedPlaceholderLiterals(cs)
+	case c.Directed == "identifier-periods":
+		p.directedIdentifierPeriods(cs)
 	case c.Directed == "pinned-corpus":
 		for _, src := range pinnedCorpus {
 			checkRaw(cs, src)
@@ -241,7 +245,7 @@ func (p *c17) directed(c fw.Case, cs *caseState) {
 }
 
 func directedNames() []string {
-	names := []string{"known-probes", "each-function-top", "literals", "templates-text", "pinned-corpus", "negative-indexes", "options-date-references"}
+	names := []string{"known-probes", "each-function-top", "literals", "templates-text", "pinned-corpus", "negative-indexes", "options-date-references", "placeholder-literals", "identifier-periods"}
 	for i := 0; i < pairChunks; i++ {
 		names = append(names, fmt.Sprintf("pairs-%02d", i))
 	}
@@ -276,7 +280,7 @@ func checkRaw(cs *caseState, src string) {
 		return
 	}
 	res.Count("clause.migrated_without_error", 1)
-	toks := scanTokens(migrated, flows.RunContextTopLevels)
+	toks := refScan(migrated, flows.RunContextTopLevels)
 	for _, tk := range toks {
 		if !tk.expr {
 			continue
@@ -287,7 +291,7 @@ func checkRaw(cs *caseState, src string) {
 		}
 		res.Count("clause.parse.expressions_parsed", 1)
 	}
-	old := scanTokens(src, expressions.ContextTopLevels)
+	old := refScan(src, expressions.ContextTopLevels)
 	same := len(old) == len(toks)
 	for i := 0; same && i < len(old); i++ {
 		same = old[i].expr == toks[i].expr
